@@ -758,14 +758,19 @@ def coarse_grid_solver(solver):
     elif solver in ['bicg', 'bicgstab', 'cg', 'cgs', 'gmres', 'qmr', 'minres']:
         if hasattr(krylov, solver):
             fn = getattr(krylov, solver)
+            tolname = 'tol'
         else:
             fn = getattr(sla, solver)
+            tolname = 'rtol'   # scipy.sparse.linalg solvers take rtol
 
         def solve(_, A, b):
-            if 'tol' not in kwargs:
-                kwargs['tol'] = set_tol(A.dtype)
+            kw = dict(kwargs)
+            if tolname == 'rtol' and 'tol' in kw:
+                kw['rtol'] = kw.pop('tol')
+            if tolname not in kw:
+                kw[tolname] = set_tol(A.dtype)
 
-            return fn(A, b, **kwargs)[0]
+            return fn(A, b, **kw)[0]
 
     elif solver in ['gauss_seidel', 'jacobi', 'block_gauss_seidel', 'schwarz',
                     'block_jacobi', 'richardson', 'sor', 'chebyshev',
